@@ -14,19 +14,29 @@ namespace Stackage
 open ListSpec
 namespace Stk
 
-/-- **Push under a policy** consults it once per value, in order, while room remains; appends
+/-- **Push under a policy** consults it once per offered value, in order, while room remains; appends
 each approved value; at the first rejection stops, keeps what was appended and records that
-error; values dropped for lack of room are not consulted -/
+error; values dropped for lack of room are not consulted. Values that no-nesting excludes (C13: Stacks and
+Stack aliases while the option is set) are skipped before the policy is asked (repair F36: the policy path
+used to ignore the option). -/
 theorem C14_push (interp : Nat → Val → Option Nat) (p : Nat) (s : Stk) (vs : List Val) (hwf : s.WF)
     (hp : s.cfg.ppf = some p) (hsm : SmallLen (s.xs.length + vs.length)) :
-    (s.push interp vs).xs = s.xs ++ (pushPol (interp p) s.opts.room vs).1 ∧
+    (s.push interp vs).xs = s.xs ++ (pushPol (interp p) s.opts.room (vs.filter s.canPushNester)).1 ∧
     (s.push interp vs).cfg =
-      (match (pushPol (interp p) s.opts.room vs).2 with
+      (match (pushPol (interp p) s.opts.room (vs.filter s.canPushNester)).2 with
        | some e => { s.cfg with err := some e }
        | none => s.cfg) := by
   unfold push; rw [hp]
-  obtain ⟨a, b, _⟩ := methodAppend_spec (interp p) vs s hwf hsm
+  have hle : (vs.filter s.canPushNester).length ≤ vs.length := List.length_filter_le _ _
+  obtain ⟨a, b, _⟩ := methodAppend_spec (interp p) (vs.filter s.canPushNester) s hwf
+    (by unfold SmallLen at *; omega)
   exact ⟨a, b⟩
+
+/-- with the option off every offered value reaches the policy -/
+theorem C14_push_nesting_allowed (s : Stk) (vs : List Val) (h : s.flag Gen.flag_nnest = false) :
+    vs.filter s.canPushNester = vs := by
+  apply List.filter_eq_self.mpr
+  intro v _; simp [canPushNester, h]
 
 /-- nothing the policy rejected is ever stored -/
 theorem C14_nothing_rejected_stored (pol : Val → Option Nat) (vs : List Val) :
@@ -59,6 +69,18 @@ theorem C14_stored_prefix (pol : Val → Option Nat) (vs : List Val) :
     · split
       · simp
       · simpa using ih _
+
+/-- **C13 under a policy**: while no-nesting is set, no Stack or Stack alias is stored by a Push, policy or not -/
+theorem C13_push_policy (interp : Nat → Val → Option Nat) (p : Nat) (s : Stk) (vs : List Val) (hwf : s.WF)
+    (hp : s.cfg.ppf = some p) (hsm : SmallLen (s.xs.length + vs.length)) (h : s.flag Gen.flag_nnest = true) :
+    ∀ v ∈ ((s.push interp vs).xs.drop s.xs.length), v.isStack = false := by
+  rw [(C14_push interp p s vs hwf hp hsm).1]
+  simp only [List.drop_left]
+  intro v hv
+  have hpre := C14_stored_prefix (interp p) (vs.filter s.canPushNester) s.opts.room
+  have hmem : v ∈ vs.filter s.canPushNester := hpre.subset hv
+  have := (List.mem_filter.mp hmem).2
+  simpa [canPushNester, h] using this
 
 /-- an error is reported exactly when some consulted value was rejected, and it is that value's error -/
 theorem C14_error_is_policy's (pol : Val → Option Nat) (vs : List Val) :
